@@ -1168,14 +1168,7 @@ func (e *Engine) hashableKey(k Iface) (Iface, bool) {
 }
 
 func (e *Engine) utf8Check(r Rope) Iface {
-	if b, ok := ropeConcrete(r); ok {
-		if !utf8.Valid(b) {
-			return e.mkErr("cbor: invalid UTF-8 string")
-		}
-		return Iface{}
-	}
-	valid := e.tt.UF("utf8valid", 0, e.intern("rope", e.ropeKey(r)))
-	if !e.branch(valid) {
+	if !e.branch(e.utf8ValidOf(r)) {
 		return e.mkErr("cbor: invalid UTF-8 string")
 	}
 	return Iface{}
@@ -1297,4 +1290,52 @@ func (e *Engine) parseAny(ctx decCtx, n *Node) (Iface, Iface) {
 	}
 	e.unsupported("parseAny")
 	return Iface{}, Iface{}
+}
+
+// utf8Term: exact UTF-8 validity of a short string given as byte terms (RFC 3629 ranges).
+func (e *Engine) utf8Term(bs []*Term) *Term {
+	tt := e.tt
+	in := func(b *Term, lo, hi uint64) *Term {
+		return tt.And(tt.Cmp("bvule", tt.BVu(lo, 8), b), tt.Cmp("bvule", b, tt.BVu(hi, 8)))
+	}
+	cont := func(b *Term) *Term { return in(b, 0x80, 0xBF) }
+	// valid[i]: the suffix starting at i is valid
+	n := len(bs)
+	valid := make([]*Term, n+1)
+	valid[n] = tt.Bool(true)
+	for i := n - 1; i >= 0; i-- {
+		var alts []*Term
+		alts = append(alts, tt.And(in(bs[i], 0x00, 0x7F), valid[i+1]))
+		if i+1 < n {
+			alts = append(alts, tt.And(in(bs[i], 0xC2, 0xDF), cont(bs[i+1]), valid[i+2]))
+		}
+		if i+2 < n {
+			three := tt.Or(
+				tt.And(in(bs[i], 0xE0, 0xE0), in(bs[i+1], 0xA0, 0xBF)),
+				tt.And(in(bs[i], 0xE1, 0xEC), cont(bs[i+1])),
+				tt.And(in(bs[i], 0xED, 0xED), in(bs[i+1], 0x80, 0x9F)),
+				tt.And(in(bs[i], 0xEE, 0xEF), cont(bs[i+1])))
+			alts = append(alts, tt.And(three, cont(bs[i+2]), valid[i+3]))
+		}
+		if i+3 < n {
+			four := tt.Or(
+				tt.And(in(bs[i], 0xF0, 0xF0), in(bs[i+1], 0x90, 0xBF)),
+				tt.And(in(bs[i], 0xF1, 0xF3), cont(bs[i+1])),
+				tt.And(in(bs[i], 0xF4, 0xF4), in(bs[i+1], 0x80, 0x8F)))
+			alts = append(alts, tt.And(four, cont(bs[i+2]), cont(bs[i+3]), valid[i+4]))
+		}
+		valid[i] = tt.Or(alts...)
+	}
+	return valid[0]
+}
+
+// utf8ValidOf: validity of a rope as a term (exact for short byte-term ropes, uninterpreted for opaque contents)
+func (e *Engine) utf8ValidOf(r Rope) *Term {
+	if b, ok := ropeConcrete(r); ok {
+		return e.tt.Bool(utf8.Valid(b))
+	}
+	if bs, ok := e.ropeByteTerms(r); ok && len(bs) <= 8 {
+		return e.utf8Term(bs)
+	}
+	return e.tt.UF("utf8valid", 0, e.intern("rope", e.ropeKey(r)))
 }
